@@ -33,8 +33,9 @@ class Exit(Exception):
 class SymEval:
     def __init__(self, prog, func, seed=None, rename=None, inline=(), args=None,
                  depth=0, loop_first=False, self_class=None, inline_props=True,
-                 inline_self=False, no_inline=()):
+                 inline_self=False, no_inline=(), loop_summary=False):
         self.prog = prog
+        self.loop_summary = loop_summary
         self.func = func
         self.seed = dict(seed or {})
         self.rename = dict(rename or {})
@@ -605,7 +606,47 @@ class SymEval:
                     out.update(target_names(n.target))
         return out
 
+    def _loop_idempotent(self, st, count):
+        """Summary of ``for v in range(count)`` whose body is idempotent on the scalars it assigns: run the body for
+        the first iteration (v = 0) from the entry state and once more (v symbolic) from the resulting state; every
+        assigned name whose value is unchanged by the second run (and free of v) has, after the loop,
+        ``first-iteration value if count >= 1 else entry value``.  Everything else is unknown."""
+        assigned = self._assigned_in(st.body)
+        env0, path0 = dict(self.env), list(self.path)
+        v = st.target.id
+        once = S.cmp(">=", count, S.ONE)
+        self.env[v] = S.ZERO
+        self.path = path0 + [once]
+        self.block(st.body)
+        env1 = dict(self.env)
+        snap1 = dict(self.snap)
+        self.env = dict(env1)
+        self.env[v] = S.sym(v)
+        self.block(st.body)
+        env2 = self.env
+        self.snap = snap1  # statements keep their first-iteration snapshots
+        after = dict(env0)
+        for k in set(assigned) | (set(env1) - set(env0)):
+            if k == v:
+                after[k] = S.unknown("after-loop:" + k)
+                continue
+            a1, a2 = env1.get(k), env2.get(k)
+            if a1 is not None and a2 is not None and a1 == a2 and v not in S.symbols(a1) and not S.has_unknown(a1):
+                a0 = env0.get(k)
+                if a0 is None and "." in k:
+                    a0 = self._loopsym(k)  # an attribute not written before the loop: its seeded / symbolic entry value
+                after[k] = S.cond(once, a1, a0 if a0 is not None else S.unknown("unbound:" + k))
+            else:
+                after[k] = S.unknown("after-loop:" + k)
+        self.env, self.path = after, path0
+        return False
+
     def _loop(self, st, bind):
+        if (self.loop_summary and isinstance(st, ast.For) and isinstance(st.target, ast.Name) and not st.orelse
+                and not any(isinstance(x, (ast.Break, ast.Continue, ast.Return)) for b in st.body for x in ast.walk(b))):
+            it = self.expr(st.iter)
+            if it.op == "call" and it.args[0] == "range" and len(it.args) == 2:
+                return self._loop_idempotent(st, it.args[1])
         assigned = self._assigned_in(st.body)
         env0, path0 = dict(self.env), list(self.path)
         if not self.loop_first:
@@ -718,6 +759,11 @@ class SymEval:
 
     def reached(self, stmt):
         return id(stmt) in self.snap
+
+    def guard_of(self, stmt):
+        """path condition (conjunction of the branch tests taken) under which ``stmt`` is reached"""
+        env, path = self.at(stmt)
+        return S.eand(*path) if path else S.TRUE
 
 
 def _load(t):
